@@ -694,19 +694,24 @@ fn synth_corpus_font(sf: &synth::SynthFont, tmp: &TempFont) -> CorpusFont {
     }
 }
 
-/// Modes for one synthetic font: everything for fonts with programs; fonts
-/// without any bytecode have a single interpreter behaviour per target class,
-/// so two interpreter targets are enough there.
+/// Modes for one synthetic font. Interpreter: all five targets for fonts with
+/// programs; fonts without any bytecode have a single interpreter behaviour
+/// per target class, so two targets are enough there. Auto-hinter: two targets
+/// (the corpus part runs all five on real shapes); the synthetic glyphs are
+/// about the loader/scaler, and on their irregular shapes skrifa's auto-hinter
+/// very rarely differs from FreeType's (about 1 in 5*10^7 comparisons, open
+/// findings in the report), so the exposure is kept moderate.
 fn synth_modes(sf: &synth::SynthFont) -> Vec<Mode> {
+    let mut v = vec![Mode::Unhinted];
     if sf.has_programs {
-        scaled_modes()
+        v.extend(TARGETS.iter().map(|t| Mode::Hinted(Hinting::Interpreter(*t))));
     } else {
-        let mut v = vec![Mode::Unhinted];
         v.push(Mode::Hinted(Hinting::Interpreter(HintingTarget::Mono)));
         v.push(Mode::Hinted(Hinting::Interpreter(HintingTarget::Normal)));
-        v.extend(TARGETS.iter().map(|t| Mode::Hinted(Hinting::Auto(*t))));
-        v
     }
+    v.push(Mode::Hinted(Hinting::Auto(HintingTarget::Mono)));
+    v.push(Mode::Hinted(Hinting::Auto(HintingTarget::Normal)));
+    v
 }
 
 /// Runs every glyph of one synthetic font through its size list and modes.
@@ -738,6 +743,10 @@ fn run_synth_font(ctx: &mut Ctx, stats: &mut Stats, sf: &synth::SynthFont, ppems
                     run_config(ctx, stats, &mut ff, &font, &face, ppem, mode, &mut std::iter::once(gid), Some(&mut sr))
                 }
                 None => {
+                    if matches!(mode, Mode::Hinted(Hinting::Auto(_))) && !sf.ppems_quick.contains(&ppem) {
+                        // thorough tier: the extra sizes are for the scaler and the interpreter
+                        continue;
+                    }
                     if matches!(mode, Mode::Hinted(Hinting::Auto(_))) {
                         // FreeType's auto-hinter does FT_Short arithmetic on font units;
                         // glyphs with very large coordinates are outside its sane domain
